@@ -26,11 +26,23 @@ func fprintfOf(rs *Resid, st ast.Stmt) (*ast.CallExpr, string, bool) {
 		return nil, "", false
 	}
 	c, ok := es.X.(*ast.CallExpr)
-	if !ok || len(c.Args) < 2 {
+	if !ok || len(c.Args) < 1 {
 		return nil, "", false
 	}
 	sel, ok := c.Fun.(*ast.SelectorExpr)
-	if !ok || sel.Sel.Name != "Fprintf" {
+	if ok && sel.Sel.Name == "WriteString" && len(c.Args) == 1 {
+		// buf.WriteString("text"): the text itself, nothing is formatted — buf being the bytes.Buffer the function prints into
+		if id, isID := sel.X.(*ast.Ident); isID && isBytesBuffer(rs, id.Name) {
+			if bl, isLit := c.Args[0].(*ast.BasicLit); isLit && bl.Kind == token.STRING {
+				if txt, err := strconv.Unquote(bl.Value); err == nil && !strings.Contains(txt, "%") {
+					return c, txt, true
+				}
+			}
+			return c, "", false
+		}
+		return nil, "", false
+	}
+	if !ok || sel.Sel.Name != "Fprintf" || len(c.Args) < 2 {
 		return nil, "", false
 	}
 	id, ok := sel.X.(*ast.Ident)
@@ -49,6 +61,32 @@ func fprintfOf(rs *Resid, st ast.Stmt) (*ast.CallExpr, string, bool) {
 		return c, "", false
 	}
 	return c, s, true
+}
+
+// isBytesBuffer: name is defined in the residual from an expression of package bytes (bytes.NewBuffer(nil), &bytes.Buffer{}).
+func isBytesBuffer(rs *Resid, name string) bool {
+	found := false
+	for _, fn := range rs.Funcs {
+		ast.Inspect(fn, func(n ast.Node) bool {
+			as, ok := n.(*ast.AssignStmt)
+			if !ok || as.Tok != token.DEFINE || len(as.Lhs) != 1 || len(as.Rhs) != 1 {
+				return true
+			}
+			if id, ok := as.Lhs[0].(*ast.Ident); !ok || id.Name != name {
+				return true
+			}
+			ast.Inspect(as.Rhs[0], func(m ast.Node) bool {
+				if id, ok := m.(*ast.Ident); ok {
+					if h := rs.hole(id.Name); h != nil && h.Origin == "bytes" {
+						found = true
+					}
+				}
+				return true
+			})
+			return true
+		})
+	}
+	return found
 }
 
 var verbRe = regexp.MustCompile(`%(#v|v|d|s|q|t)`)
@@ -120,7 +158,11 @@ func stage2Paths(rs *Resid, body *ast.BlockStmt, maxIter int) ([]gsPath, string)
 					undecided = "Fprintf with a non-literal format"
 					return append(acc, parked...)
 				}
-				txt, notes := renderStage2(rs, format, c.Args[2:], iter)
+				var operands []ast.Expr
+				if len(c.Args) > 2 {
+					operands = c.Args[2:]
+				}
+				txt, notes := renderStage2(rs, format, operands, iter)
 				for i := range acc {
 					acc[i].text += txt
 					acc[i].notes = append(acc[i].notes, notes...)
